@@ -301,9 +301,9 @@ def load_dot_graph(fn):
     """Graph written by `-dump dot,actionlabels`: (nodes: id->state, edges: id->[(label,id)], inits)."""
     nodes, edges, inits = {}, collections.defaultdict(list), []
     for line in open(fn):
-        m = re.match(r'(-?\d+) -> (-?\d+) \[label="([^"]*)"', line)
+        m = re.match(r'(-?\d+) -> (-?\d+) \[label="((?:[^"\\]|\\.)*)"', line)
         if m:
-            edges[m.group(1)].append((m.group(3), m.group(2)))
+            edges[m.group(1)].append((m.group(3).replace('\\"', '"').replace("\\\\", "\\"), m.group(2)))
             continue
         m = re.match(r'(-?\d+) \[label="((?:[^"\\]|\\.)*)"(.*)', line)
         if m:
